@@ -47,14 +47,26 @@ def _models():
     return dict(COMMON_MODELS)
 
 
+def cumsum_evaluator(P, **kw):
+    """Evaluator for Grid.cumsum / cumint: the common models plus coordinates that follow the array through
+    rename / drop_vars / reset_coords / reset_index (so `.coords` is a mapping whatever spelling the source uses)."""
+    from ..harness import coord_tracking_models
+
+    mm, am = coord_tracking_models()
+    am[("DataArray", "chunks")] = lambda ev, o, n: TOP
+    return Evaluator(P, models=_models(), attr_models=am, method_models=mm, **kw)
+
+
 def _run_cumsum(P, pos, to, default_shifts=None, axnames=("AX",), axis_arg=None, extra_dims=("t",), mw=None, da_pos=None):
-    ev = Evaluator(P, models=_models(), attr_models={("DataArray", "chunks"): lambda ev, o, n: TOP})
+    ev = cumsum_evaluator(P)
     fi = P.func("grid:Grid.cumsum")
 
     def make():
         g = make_grid(axnames, default_shifts=default_shifts)
         dims = [Sym(d) for d in extra_dims] + [dimsym(a, (da_pos or {}).get(a, pos)) for a in axnames]
-        da = make_da("da", dims)
+        coords = {d: (d,) for d in dims}  # an index coordinate per dimension ...
+        coords[Sym("aux_coord")] = (dims[-1],)  # ... and a non-index one on the shifted dimension
+        da = make_da("da", dims, coords=coords)
         ax = axis_arg if axis_arg is not None else Sym(axnames[0])
         return dict(self=g, da=da, axis=ax, to=to, boundary=Sym("USER_BOUNDARY"), fill_value=Sym("USER_FILL"),
                     metric_weighted=mw, keep_coords=Sym("USER_KEEP"))
@@ -223,7 +235,7 @@ def check(ctx):
         inst = f"per-axis boundary / fill_value mappings, axis order {list(order)}"
         bmap = {Sym("AX"): "fill", Sym("AY"): "extend"}
         fmap = {Sym("AX"): 1.0, Sym("AY"): 2.0}
-        ev2 = Evaluator(P, models=_models(), attr_models={("DataArray", "chunks"): lambda ev, o, n: TOP})
+        ev2 = cumsum_evaluator(P)
 
         def make(order=order):
             g = make_grid(("AX", "AY"))
